@@ -5,7 +5,7 @@ from .. import common
 from .. import fam_pipeline as fp
 from .. import pipeline as pl
 
-THEOREMS = ["C02.rewire_only_target", "C02.performer_skeleton", "C02.modify_skeleton", "C02.quantize_skeleton"]
+THEOREMS = ["C02.rewire_only_target", "C02.performer_skeleton", "C02.modify_skeleton", "C02.quantize_skeleton", "NFCheckProofs.nfOK_sound"]
 
 
 def run(ctx):
@@ -15,19 +15,14 @@ def run(ctx):
                 "regexes built from the model's tensor names) x random calibration data; every case goes through the real pipeline, the "
                 "graph stage is compared with the Lean model, the returned bytes are compared with the input graph after erasing inserted QUANTIZE/DEQUANTIZE ops "
                 "(independent Python implementation), signatures vs subgraph IO, float IO unless INPUT/OUTPUT is covered; distinct = distinct (model, recipe) pairs")
-    common.proof_side(ctx, THEOREMS)
+    common.proof_side(ctx, THEOREMS, modules=["QProps.C02", "QProofs.NFCheckProofs"])
     drv = common.Driver()
-    rng = ctx.rng
-    n = 220 if ctx.tier == "quick" else 4000
-    for i in range(n):
-        if ctx.left() < 25:
-            break
-        case = fp.gen_case(rng, i)
-        res = fp.run_case(ctx, drv, case)
-        fp.count_tags(ctx, case, res)
-        ctx.case({"ops": [sg["ops"] for sg in case.info["subgraphs"]], "recipe": case.desc}, res["status"] != "empty")
+    def per_case(case, res):
         if res["status"] == "ok":
             fp.oracle_c02(ctx, case, res)
+    # graph stage (instructions + performer on abstract parameter classes) AND the whole pipeline (bit-exact output, WF.modelOK /
+    # skeleton evaluated on the model's own output, NF membership) are compared with the Lean model on every case
+    fp.explore(ctx, drv, 220 if ctx.tier == "quick" else 4000, per_case, graph_corr=True, pipe_corr=True)
     drv.close()
     return common.finish(ctx)
 
